@@ -5,7 +5,7 @@ from harness import impl
 from harness.common import quick_scale, rng, short
 from harness.gen import corpus, mutate, pyprog, xonshgen
 
-VERSIONS = [None, (3, 8), (3, 9), (3, 10), (3, 11), (3, 12), (3, 13), (4, 0), (5, 3), (3, 12, 1, 0), (3, 11, 0, 0), (3, 12, 0)]
+VERSIONS = [None, (3, 8), (3, 9), (3, 10), (3, 11), (3, 12), (3, 13), (4, 0), (5, 3), (3, 12, 1, 0), (3, 11, 0, 0), (3, 12, 0), (3,)]
 GATED = {
     "try:\n    pass\nexcept* E:\n    pass\n": (3, 11),
     "class A[T]: pass\n": (3, 12),
@@ -111,7 +111,7 @@ def build_inputs(tier):
 
 def run(rep, tier, pool, variants=("shipped",)):
     rep.rule = (
-        "inputs x the full option grid verbose in {F,T} x py_version in {None,(3,8)..(3,13),(4,0),(5,3),(3,12,1,0),(3,11,0,0),(3,12,0)} (24 configurations each): version-gated programs "
+        "inputs x the full option grid verbose in {F,T} x py_version in {None,(3,8)..(3,13),(4,0),(5,3),(3,12,1,0),(3,11,0,0),(3,12,0),(3,)} (26 configurations each): version-gated programs "
         "(except*, type parameter lists, type statements; alone and embedded), Python/xonsh snippet pools, all macro kinds, generated programs, and "
         "damaged (failing) variants; oracle: verbose result == quiet result (tree dump with positions or full error attributes); for py_version >= "
         "need and for None the result equals the default; below it the result is a SyntaxError naming the required version; distinct by (text, mode)"
